@@ -2,7 +2,7 @@
 import regen
 from wire import hx, opt, lst
 
-PROMPTS = [b"PROMPT> ", b"=> ", b"$ ", b"ab", b"aab", b"aa", b"\r\n# ", b"x"]
+PROMPTS = [b"PROMPT> ", b"=> ", b"$ ", b"ab", b"aab", b"aa", b"\r\n# ", b"x", "\u279c ".encode(), "\xe9> ".encode()]
 ALPHA = b"abx \r\n"
 
 
